@@ -52,6 +52,10 @@ var c09IDClasses = [][]string{
 	{"https://example.com/notes/1?x=1", "https://example.com/notes/1?x=1#f"},
 	{"https://example.com/notes/1?x=2"},
 	{"https://social.example:8443/u/carol"},
+	// the same query key repeated: the classes differ only in the multiplicities of its values
+	{"https://example.com/search?tag=a&tag=a&tag=b", "https://example.com/search?tag=a&tag=b&tag=a"},
+	{"https://example.com/search?tag=a&tag=b&tag=b", "https://example.com/search?tag=b&tag=a&tag=b"},
+	{"https://example.com/search?tag=a&tag=b"},
 	{"https://example.net/inbox"},
 }
 
@@ -219,6 +223,8 @@ var c09CoreFields = []string{"Name", "Attachment", "AttributedTo", "Audience", "
 var c09ActivityFields = []string{"Actor", "Object", "Target", "Result", "Origin", "Instrument"}
 
 // two distinguishable non-zero values for a field of the given Go type
+var c09NlvCtr, c09FieldCtr int
+
 func c09TwoValues(g *Gen, t reflect.Type) (reflect.Value, reflect.Value) {
 	ca := g.Intn(len(c09IDClasses))
 	cb := (ca + 1 + g.Intn(len(c09IDClasses)-1)) % len(c09IDClasses)
@@ -245,13 +251,19 @@ func c09TwoValues(g *Gen, t reflect.Type) (reflect.Value, reflect.Value) {
 		}
 		return reflect.ValueOf(mk(ca)), reflect.ValueOf(mk(cb))
 	case t == tNlv:
-		switch g.Intn(3) {
+		c09NlvCtr++
+		switch c09NlvCtr % 4 {
 		case 0:
 			return reflect.ValueOf(ap.NaturalLanguageValues{{Ref: "en", Value: ap.Content("one")}}), reflect.ValueOf(ap.NaturalLanguageValues{{Ref: "en", Value: ap.Content("two")}})
 		case 1:
 			return reflect.ValueOf(ap.NaturalLanguageValues{{Ref: "en", Value: ap.Content("one")}}), reflect.ValueOf(ap.NaturalLanguageValues{{Ref: "fr", Value: ap.Content("one")}})
-		default:
+		case 2: // several languages, only a LATER entry differs
 			return reflect.ValueOf(ap.NaturalLanguageValues{{Ref: "en", Value: ap.Content("one")}, {Ref: "fr", Value: ap.Content("un")}}), reflect.ValueOf(ap.NaturalLanguageValues{{Ref: "en", Value: ap.Content("one")}, {Ref: "fr", Value: ap.Content("deux")}})
+		default: // three languages, only the last differs; and the first differs
+			if g.Chance(1, 2) {
+				return reflect.ValueOf(ap.NaturalLanguageValues{{Ref: "-", Value: ap.Content("x")}, {Ref: "en", Value: ap.Content("one")}, {Ref: "fr", Value: ap.Content("un")}}), reflect.ValueOf(ap.NaturalLanguageValues{{Ref: "-", Value: ap.Content("x")}, {Ref: "en", Value: ap.Content("one")}, {Ref: "de", Value: ap.Content("un")}})
+			}
+			return reflect.ValueOf(ap.NaturalLanguageValues{{Ref: "en", Value: ap.Content("one")}, {Ref: "fr", Value: ap.Content("un")}}), reflect.ValueOf(ap.NaturalLanguageValues{{Ref: "en", Value: ap.Content("uno")}, {Ref: "fr", Value: ap.Content("un")}})
 		}
 	case t == tTime:
 		a := time.Unix(1700000000+int64(g.Intn(5)), 0).In(zones[g.Intn(len(zones))])
@@ -403,6 +415,35 @@ func runC09(seed int64, n int, tier string, outDir string) (*Report, error) {
 		}
 	}
 
+	// ---- 3a. identity, exhaustive over the id classes: every ordered pair of classes, every variant pair,
+	//          as object/object, IRI/IRI and IRI/object: never equal
+	for ca := range c09IDClasses {
+		for cb := range c09IDClasses {
+			if ca == cb {
+				continue
+			}
+			for va, ida := range c09IDClasses[ca] {
+				for vb, idb := range c09IDClasses[cb] {
+					pairs := [][2]ap.Item{
+						{&ap.Object{ID: ap.IRI(ida), Type: ap.NoteType}, &ap.Object{ID: ap.IRI(idb), Type: ap.NoteType}},
+						{ap.IRI(ida), ap.IRI(idb)},
+						{ap.IRI(ida), &ap.Object{ID: ap.IRI(idb), Type: ap.NoteType}},
+					}
+					for pi, pr := range pairs {
+						r, pnc, msg := c09Eq(pr[0], pr[1])
+						rep.Evaluations++
+						rep.Count("identity-grid")
+						if pnc || r {
+							violate("ItemsEqual of items whose ids differ in host, path or query", pr[0], pr[1], "false", show(r, pnc, msg), "")
+						}
+						if (ca*7+cb*3+va+vb+pi)%9 == 0 {
+							emit(pr[0], pr[1], fmt.Sprintf("identity grid %d/%d %d/%d shape %d", ca, va, cb, vb, pi))
+						}
+					}
+				}
+			}
+		}
+	}
 	// ---- 3. identity: objects with ids of different identity classes, or types differing beyond case
 	for i := 0; i < n/3; i++ {
 		o := c09Opts()
@@ -419,8 +460,10 @@ func runC09(seed int64, n int, tier string, outDir string) (*Report, error) {
 		if g.Chance(1, 2) { // same Go type, y a copy of x: only the id (or type) differs
 			y = c09With(x, "ID", reflect.ValueOf(x).Elem().FieldByName("ID"))
 		}
-		ca := g.Intn(len(c09IDClasses))
-		cb := (ca + 1 + g.Intn(len(c09IDClasses)-1)) % len(c09IDClasses)
+		// every ordered pair of identity classes in turn
+		nc := len(c09IDClasses)
+		ca := i % nc
+		cb := (ca + 1 + (i/nc)%(nc-1)) % nc
 		what := "ids of different identity"
 		if g.Chance(2, 3) {
 			reflect.ValueOf(x).Elem().FieldByName("ID").SetString(string(c09ID(g, ca)))
@@ -485,7 +528,8 @@ func runC09(seed int64, n int, tier string, outDir string) (*Report, error) {
 		if transitive && g.Chance(1, 2) {
 			fieldsPool = c09ActivityFields
 		}
-		f := fieldsPool[g.Intn(len(fieldsPool))]
+		c09FieldCtr++
+		f := fieldsPool[c09FieldCtr%len(fieldsPool)] // every compared property in turn
 		ft := xv.FieldByName(f).Type()
 		va, vb := c09TwoValues(g, ft)
 		zero := reflect.Zero(ft)
